@@ -1,3 +1,148 @@
-//! C02 — not yet built
-use crate::ctx::Ctx;
-pub fn run(c: &mut Ctx) { c.notes.push("C02: not implemented".into()); }
+//! C02 — well-formed PDFs from any producer load to their content.
+//! Files come from the independent reference writer (refwriter.rs); oracle = the abstract document.
+use crate::codec::*;
+use crate::ctx::{guard, Ctx};
+use crate::gen::*;
+use crate::props::c01::{load_reply, same};
+use crate::refwriter::*;
+use crate::rng::Rng;
+use lopdf::{Dictionary, Document, Object, StringFormat};
+use serde_json::json;
+
+pub fn gen_aobjects(r: &mut Rng, max_objs: usize, first_num: u32) -> AObjects {
+    let mut m = AObjects::new();
+    let n = 1 + r.usize(max_objs);
+    let mut num = first_num;
+    for _ in 0..n {
+        num += if r.chance(1, 4) { 1 + r.below(4) as u32 } else { 1 };
+        let gen = if r.chance(1, 8) { 1 + r.below(3) as u16 } else { 0 };
+        if r.chance(1, 4) {
+            let len = match r.below(4) { 0 => 0, 1 => r.usize(4), _ => r.usize(120) };
+            let data: Vec<u8> = (0..len).map(|_| if r.chance(1, 3) { special_byte(r) } else { r.byte() }).collect();
+            m.insert((num, gen), AObj { obj: Object::Dictionary(gen_dict(r, 2)), stream: Some(data) });
+        } else {
+            m.insert((num, gen), AObj { obj: gen_plain_obj(r), stream: None });
+        }
+    }
+    m
+}
+/// objects without features whose reading is a separately registered finding
+fn gen_plain_obj(r: &mut Rng) -> Object {
+    fn fix(o: &mut Object) {
+        match o {
+            // raw CR handling is exercised by the dedicated witness stream (F-C02-a)
+            Object::Array(a) => a.iter_mut().for_each(fix),
+            Object::Dictionary(d) => d.iter_mut().for_each(|(_, v)| fix(v)),
+            _ => {}
+        }
+    }
+    let depth = r.usize(4);
+    let mut o = gen_obj(r, depth);
+    fix(&mut o);
+    o
+}
+pub fn gen_trailer_extra(r: &mut Rng, objs: &AObjects) -> Dictionary {
+    let mut d = Dictionary::new();
+    let ids: Vec<_> = objs.keys().cloned().collect();
+    d.set("Root", Object::Reference(*r.pick(&ids)));
+    if r.chance(1, 2) { d.set("Info", Object::Reference(*r.pick(&ids))); }
+    if r.chance(1, 3) { d.set("ID", Object::Array(vec![Object::String(r.bytes(8), StringFormat::Hexadecimal), Object::String(r.bytes(8), StringFormat::Hexadecimal)])); }
+    d
+}
+pub fn gen_style(r: &mut Rng) -> Style {
+    let xref = if r.chance(1, 2) { XrefStyle::Stream } else { XrefStyle::Table };
+    Style { xref, objstm: xref == XrefStyle::Stream && r.chance(1, 2), compress: r.chance(1, 3), indirect_length: r.chance(1, 3),
+            raw_cr_in_strings: false, junk_before_header: r.chance(1, 6), lexical_freedom: r.chance(4, 5) }
+}
+
+const BOOKKEEPING: &[&[u8]] = &[b"Size", b"Prev", b"Type", b"W", b"Index", b"Length", b"Filter", b"DecodeParms", b"XRefStm"];
+
+/// compare a loaded document with the abstract one (latest revision wins). `helper_from` = first helper object number.
+pub fn compare_abstract(doc: &Document, want: &AObjects, trailer_extra: &Dictionary, version: &str, helper_from: u32) -> Option<(String, String)> {
+    if doc.version != version { return Some(("version".into(), format!("version {:?} != {:?}", doc.version, version))); }
+    for (id, a) in want {
+        let Some(got) = doc.objects.get(id) else { return Some(("missing-object".into(), format!("object {:?} missing", id))); };
+        match (&a.stream, got) {
+            (None, g) => if !same(g, &a.obj) { return Some((format!("object-differs:{}", kind_of(&a.obj)), format!("object {:?}: want {} got {}", id, show_obj(&a.obj), show_obj(g)))); },
+            (Some(data), Object::Stream(s)) => {
+                if &s.content != data { return Some(("stream-content".into(), format!("stream {:?}: content differs ({} vs {} bytes)", id, s.content.len(), data.len()))); }
+                let mut gd = s.dict.clone(); gd.remove(b"Length");
+                let wd = a.obj.as_dict().unwrap();
+                if gd.len() != wd.len() || wd.iter().any(|(k, v)| !matches!(gd.get(k), Ok(x) if same(x, v))) { return Some(("stream-dict".into(), format!("stream {:?}: dictionary differs", id))); }
+                match s.dict.get(b"Length") { Ok(Object::Integer(n)) if *n == data.len() as i64 => {}, Ok(Object::Reference(_)) => {}, _ => return Some(("stream-length".into(), format!("stream {:?}: Length entry wrong", id))) }
+            }
+            (Some(_), g) => return Some(("stream-kind".into(), format!("stream {:?} loaded as {}", id, show_obj(g).chars().take(80).collect::<String>()))),
+        }
+    }
+    for (id, o) in &doc.objects {
+        if !want.contains_key(id) {
+            let helper = id.0 >= helper_from && (matches!(o, Object::Integer(_)) || matches!(o, Object::Stream(s) if s.dict.has_type(b"ObjStm") || s.dict.has_type(b"XRef")));
+            if !helper { return Some(("extra-object".into(), format!("unexpected object {:?} = {}", id, show_obj(o).chars().take(80).collect::<String>()))); }
+        }
+    }
+    let mut t = doc.trailer.clone(); for k in BOOKKEEPING { t.remove(k); }
+    if t.len() != trailer_extra.len() || trailer_extra.iter().any(|(k, v)| !matches!(t.get(k), Ok(x) if same(x, v))) {
+        return Some(("trailer".into(), format!("trailer {} != {}", show_obj(&Object::Dictionary(t)), show_obj(&Object::Dictionary(trailer_extra.clone())))));
+    }
+    None
+}
+fn kind_of(o: &Object) -> &'static str {
+    match o { Object::Real(_) => "real", Object::String(_, StringFormat::Literal) => "literal", Object::String(..) => "hex", Object::Name(_) => "name", Object::Array(_) => "array", Object::Dictionary(_) => "dict", Object::Integer(_) => "int", _ => "other" }
+}
+fn has_raw_cr_literal(objs: &AObjects) -> bool {
+    fn w(o: &Object) -> bool { match o { Object::String(s, StringFormat::Literal) => s.contains(&b'\r'), Object::Array(a) => a.iter().any(w), Object::Dictionary(d) => d.iter().any(|(_, v)| w(v)), _ => false } }
+    objs.values().any(|a| w(&a.obj))
+}
+
+pub fn run(c: &mut Ctx) {
+    c.rule = "abstract documents (all object kinds incl. streams, sparse ids, generations) written by an independent reference writer that randomises \
+white space / comments / EOLs / name and string escapes / number spellings / object order / subsection splits / xref stream W and Index / object streams / \
+indirect Lengths / Flate + PNG predictor on structural streams / junk before the header; one counter per choice. Oracle = the abstract document. \
+Non-trivial = every case (distinct by file bytes).".into();
+    let n = c.n(1500, 25000);
+    let mut counters = Counters::new();
+    for i in 0..n {
+        let Some(mut r) = c.case("file", i) else { continue };
+        let objs = gen_aobjects(&mut r, 10, 0);
+        let extra = gen_trailer_extra(&mut r, &objs);
+        let style = gen_style(&mut r);
+        let version = *r.pick(&["1.4", "1.5", "1.7", "2.0", "1.3"]);
+        let helper_from = objs.keys().map(|k| k.0).max().unwrap() + 1;
+        let w = write_file(&mut r, &mut counters, &style, version, &[Revision { objects: objs.clone(), trailer_extra: extra.clone() }]);
+        check_file(c, &w.bytes, &objs, &extra, version, helper_from, i < 3, &style);
+    }
+    // witness stream for F-C02-a: raw CR / CRLF inside literal strings must read as LF (ISO 32000-1 7.3.4.2)
+    for i in 0..c.n(40, 400) {
+        let Some(mut r) = c.case("rawcr", i) else { continue };
+        let mut objs = AObjects::new();
+        let mut s = gen_bytes(&mut r, 10); s.push(b'\r'); if r.chance(1, 2) { s.push(b'\n'); } s.extend(gen_bytes(&mut r, 4));
+        objs.insert((1, 0), AObj { obj: Object::String(s.clone(), StringFormat::Literal), stream: None });
+        let extra = gen_trailer_extra(&mut r, &objs);
+        let mut style = gen_style(&mut r); style.raw_cr_in_strings = true; style.objstm = false;
+        let w = write_file(&mut r, &mut counters, &style, "1.4", &[Revision { objects: objs.clone(), trailer_extra: extra.clone() }]);
+        // what ISO says the file defines: CR and CRLF become LF
+        let mut iso = vec![]; let mut k = 0; while k < s.len() { if s[k] == b'\r' { iso.push(b'\n'); if s.get(k + 1) == Some(&b'\n') { k += 1; } } else { iso.push(s[k]); } k += 1; }
+        let mut want = AObjects::new(); want.insert((1, 0), AObj { obj: Object::String(iso, StringFormat::Literal), stream: None });
+        c.corr(format!("load {}", hex_tok(&w.bytes)), load_reply(&w.bytes));
+        let ok = matches!(Document::load_mem(&w.bytes), Ok(d) if compare_abstract(&d, &want, &extra, "1.4", 2).is_none());
+        if i == 0 { c.witness("F-C02-a", !ok, "raw CR / CRLF inside a literal string is kept instead of being read as LF"); }
+        else if !ok { c.oracle_fail("raw-cr-in-literal", "raw CR / CRLF inside a literal string is kept instead of being read as LF", json!({"file": hex(&w.bytes)})); }
+    }
+    for (k, v) in counters { c.count_n(&format!("choice.{}", k), v); }
+}
+
+pub fn check_file(c: &mut Ctx, bytes: &[u8], objs: &AObjects, extra: &Dictionary, version: &str, helper_from: u32, sample: bool, style: &Style) {
+    c.nontrivial(&hex(&bytes[bytes.len().saturating_sub(64)..]));
+    c.corr(format!("load {}", hex_tok(bytes)), load_reply(bytes));
+    match guard(|| Document::load_mem(bytes)) {
+        Ok(Ok(doc)) => {
+            if let Some((sig, diff)) = compare_abstract(&doc, objs, extra, version, helper_from) {
+                let sig = if has_raw_cr_literal(objs) && sig.starts_with("object-differs") { "raw-cr-in-literal".to_string() } else { sig };
+                c.oracle_fail(&sig, &diff, json!({"file": hex(bytes), "style": format!("{:?}", style)}));
+            }
+            if sample { c.sample(json!({"style": format!("{:?}", style), "objects": objs.len(), "file": String::from_utf8_lossy(bytes).chars().take(400).collect::<String>()})); }
+        }
+        Ok(Err(e)) => c.oracle_fail("load-error", &format!("well-formed file rejected: {:?}", e), json!({"file": hex(bytes), "style": format!("{:?}", style)})),
+        Err((site, msg)) => c.oracle_fail(&format!("panic@{}", site), &msg, json!({"file": hex(bytes)})),
+    }
+}
